@@ -1109,8 +1109,8 @@ def _find_inner_head(vc, v, entering):
 
 LOOPS.update(
     {
-        ("someip.header._find", 0): {"havoc": {"i": _gen_int}, "inv": _find_outer_inv, "variant": _find_outer_variant},
-        ("someip.header._find", 1): {"inv": _find_inner_inv, "head": _find_inner_head, "keep": ["i"]},
+        ("someip.header._find", 0): {"havoc": {"i": _gen_int}, "inv": _find_outer_inv, "variant": _find_outer_variant, "may_exit": True},  # returns at the first occurrence
+        ("someip.header._find", 1): {"inv": _find_inner_inv, "head": _find_inner_head, "keep": ["i"], "may_exit": True},  # breaks at the first mismatch
     }
 )
 
